@@ -35,7 +35,11 @@ PROPERTY = {'id': 'C09',
                    "failed_tb_lineno is the line of the FIRST traceback entry of this doctest's pseudo file (existential clause proved from the "
                    'invariant of the traceback scan); the "could not clean traceback" ValueError is unreachable',
                    'failed_line_offset / failed_lineno arithmetic (shared with C08)',
-                   "_run_examples: given run's contract the loop body cannot leave by an Exception, so every gathered doctest is run and summarised"],
+                   "_run_examples: given run's contract the loop body cannot leave by an Exception, so every gathered doctest is run and summarised",
+                   'repr_failure (whole function, minus the loop that sorts formatted parts into passed / failed / remaining): raises nothing for a '
+                   'doctest of a known front end whose failure was recorded by run; empty iff nothing failed; its first line names the '
+                   'exception type; repr_failure._alter_traceback_linenos: the traceback rewriting cannot raise (the quoted source line is '
+                   'only indexed inside the failing part)'],
              'B': ['the real parser and DocTest.run on every sequence of 1..2 (thorough 3) statement templates plus random longer ones, each run twice, against an oracle written from the property statements: executed statements and their order, verdict, recorded exception and failing part, logged output, renderable report, stdout restored, second run identical, module global untouched (bounded/run_corpus.py)'],
              'T': ['compile / exec / eval / asyncio.run as oracles (pyvc/models_run.py): return a value or raise any class, write to the current '
                    'sys.stdout, may rebind sys.stdout, bind names in the dict they are given',
